@@ -54,6 +54,7 @@ def showEvent : Event → String
   | .primal b v => s!"primal {showVec b false v}"
   | .objno b a c => s!"objno {if b then "R" else "T"}{hex a} {if b then "R" else "T"}{hex c}"
   | .suffix b k _ _ name tab v => s!"suf {k} {hex name} {hex tab} {showVec b true v}"
+  | .cast t => s!"cast T{hex t}"
 
 
 def showResult (r : Result) : String :=
